@@ -302,13 +302,26 @@ int main(int argc, char** argv) {
   for (int nd = 1; nd <= 5; nd++) { plan.push_back({nd, 0}); plan.push_back({nd, nd % 2 ? 1 : 2}); }
   plan.push_back({1 + (int)r.below(5), 3}); plan.push_back({1 + (int)r.below(5), 4});
   if (thorough) {
-    for (int nd = 1; nd <= 5; nd++) { plan.push_back({nd, nd % 2 ? 2 : 1}); plan.push_back({nd, 3}); plan.push_back({nd, 4}); }
-    for (int i = 0; i < 10; i++) plan.push_back({1 + (int)r.below(5), (int)r.below(3)});
+    for (int nd = 1; nd <= 5; nd++) { plan.push_back({nd, 3}); plan.push_back({nd, 4}); }
   }
 
   long total_faults = 0, total_fired = 0;
   for (size_t it = 0; it < plan.size(); it++) {
     int nd = plan[it].first, cls = plan[it].second;
+    // one child process per table: every rejected read leaks what read_fits had allocated (the constructor throws), and
+    // the every-byte sweeps reject hundreds of thousands of files; the child hands statistics and PRNG state back
+    const std::string handback = g_dir + "/handback.txt";
+    fflush(fc); fflush(fi);
+    pid_t tpid = fork();
+    if (tpid != 0) {
+      int wst = 0; waitpid(tpid, &wst, 0);
+      if (!(WIFEXITED(wst) && WEXITSTATUS(wst) == 0)) { fprintf(fi, "harness child for table %zu died: status %d\n", it, wst); fflush(fi); return 4; }
+      FILE* hb = fopen(handback.c_str(), "r"); if (!hb) return 5;
+      unsigned long long rs; if (fscanf(hb, "%llu %ld %ld", &rs, &total_faults, &total_fired) != 3) return 5; r.s = rs;
+      stats.clear(); char key[256]; long val; while (fscanf(hb, "%255s %ld", key, &val) == 2) stats[key] = val;
+      fclose(hb);
+      continue;
+    }
     Gen g; gen_table(r, g, nd, cls);
     Table t; build_table(t, g.ord, g.kn, g.coef);
     // periods: sometimes non-trivial, sometimes absent; extents: sometimes different from the defaults, rarely absent; aux keys
@@ -475,6 +488,9 @@ int main(int argc, char** argv) {
     if (no_extents) t.extents = saved_ext;
     (void)saved_ext0;
     fflush(fc); fflush(fi);
+    { FILE* hb = fopen(handback.c_str(), "w"); fprintf(hb, "%llu %ld %ld\n", (unsigned long long)r.s, total_faults, total_fired);
+      for (auto& kv : stats) fprintf(hb, "%s %ld\n", kv.first.c_str(), kv.second); fclose(hb); }
+    _exit(0);
   }
   stats["faults_injected"] = total_faults; stats["faults_fired"] = total_fired; stats["tables"] = plan.size();
   FILE* fs = fopen(argv[5], "w"); fprintf(fs, "{"); bool first = true;
